@@ -2718,8 +2718,14 @@ class Engine:
         if c.result == "V":
             ec.assume(z3.Implies(is_ref(res.t), z3.And(V.rv(res.t) >= 0, V.rv(res.t) < ec.st.heap.alloc)))
         post_st = St(dict(penv), ec.st.heap, ec.st.pc, ghost=dict(ec.st.ghost, result=res))
+        was_feasible = not ec.guard and self._check(ec.st) != z3.unsat
         for text, f in self.spec_conj(c.ensures, post_st, pre_st, callee_fx):
             ec.assume(f)
+        if was_feasible and self._check(ec.st) == z3.unsat:
+            # vacuity guard: a callee postcondition that contradicts the caller's state would make everything after the call
+            # provable (e.g. `fresh(result)` on a contract that does not declare `allocates`)
+            raise CheckerError("the postcondition of %s is inconsistent at the call in line %d (every path after it would be vacuous)"
+                               % (c.func, e.lineno))
         return res
 
     def havoc_alloc_only(self, ec):
@@ -2867,7 +2873,7 @@ class Engine:
             else:
                 ec.may_raise_exc(flag, Exc(cid(cls_name), None, e.lineno, "%s from opaque callee %s" % (cls_name, name)))
         # the names an assumed frame / postcondition of the opaque callee may use: recv, arg0, arg1, ..., result
-        oenv = dict(ec.st.env)
+        oenv = {}       # (not the caller's locals: a local named `result` / `recv` must not capture the contract's names)
         if recv is not None:
             oenv["recv"] = recv
         for j_, a_ in enumerate(args):
@@ -2902,8 +2908,11 @@ class Engine:
             # assumed postcondition (an ASSUMED contract of library code: listed in the evidence)
             oenv2 = dict(oenv)
             post_o = St(oenv2, ec.st.heap, ec.st.pc, ghost=dict(ec.st.ghost, result=res))
+            was_feasible = not ec.guard and self._check(ec.st) != z3.unsat
             for text, f in self.spec_conj(desc["ensures"], post_o, pre_o, getattr(ec, "fx", None)):
                 ec.assume(f)
+            if was_feasible and self._check(ec.st) == z3.unsat:
+                raise CheckerError("the assumed postcondition of the opaque callee %s is inconsistent at the call in line %d" % (name, e.lineno))
         self.assumptions.add("opaque callee %s: %s" % (name, desc.get("note", "result arbitrary; heap %s; may raise %s" % (
             "unchanged" if desc.get("pure") else "arbitrary afterwards", raises))))
         return res
@@ -2922,7 +2931,7 @@ class FX:
 
     def __init__(self, eng, contract, fsrc):
         self.eng, self.contract, self.fsrc = eng, contract, fsrc
-        self.label = "%s.%s" % (fsrc.relpath.split("/")[-1][:-3], fsrc.qualname)
+        self.label = "%s.%s" % (fsrc.relpath.split("/")[-1][:-3], fsrc.qualname.replace("#", "~"))
         self.modconsts = source.module_constants(fsrc.module)
         self.nobl = 0
         self.measure0 = None
